@@ -783,10 +783,49 @@ def _literal_presorted(ctx, rep, fn, node, g, bound, targs, construct):
         elif not sorted_atoms and not raw and other:
             okall = False
             why.append('`%s` is a view that was not produced by sort/mergesort here' % norm(a))
+        elif sorted_atoms and 'presorted' not in fn.params and isinstance(a, ast.Name):
+            # every definition of the variable has to be a sort result: a definition that is the caller's table as it
+            # was passed in (a parameter, an element of *tables) next to one that sorts means "sorted on one path only"
+            defs = [x for x in own_nodes(fn.node) if isinstance(x, ast.Assign) and
+                    any(isinstance(t, ast.Name) and t.id == a.id for t in x.targets)]
+            names = set(fn.params) | ({fn.vararg} if fn.vararg else set())
+            plain = [x for x in defs if not _sort_calls(ctx, fn, x.value) and not any(isinstance(y, ast.Call) for y in ast.walk(x.value))
+                     and any(isinstance(y, ast.Name) and y.id in names for y in ast.walk(x.value))]
+            def sorts(x):
+                if _sort_calls(ctx, fn, x.value):
+                    return True
+                return any(g.fq in ('petl.transform.sorts:mergesort', 'petl.transform.sorts:MergeSortView.__init__')
+                           for c in ast.walk(x.value) if isinstance(c, ast.Call) for g, _b in _callee_fns(ctx, fn, c))
+            plain = [x for x in plain if not _killed_before(fn.node, x, defs, node)]
+            if plain and any(sorts(x) for x in defs):
+                okall = False
+                why.append('`%s` is sorted on one path only: line %d binds it to the caller\'s table as it was passed in (`%s`)'
+                           % (a.id, plain[0].lineno, norm(plain[0])[:50]))
     if okall:
         rep.held('R11.3', fn, construct, 'every table argument was sorted here (or is the caller\'s own under its presorted flag)', node)
     else:
         rep.violated('R11.3', fn, construct, 'literal presorted=True is not justified: ' + '; '.join(why), node)
+
+
+def _killed_before(fn_node, d1, defs, use):
+    """A later binding of the same variable that is a direct statement of a block, with d1 in (or being) an earlier
+    statement of that block and the use in (or being) a later one: d1 never reaches the use."""
+    def inside(stmt, x):
+        return any(y is x for y in ast.walk(stmt))
+    for holder in ast.walk(fn_node):
+        for field in ('body', 'orelse', 'finalbody'):
+            L = getattr(holder, field, None)
+            if not isinstance(L, list):
+                continue
+            i1 = next((i for i, st in enumerate(L) if isinstance(st, ast.stmt) and inside(st, d1)), None)
+            iu = next((i for i, st in enumerate(L) if isinstance(st, ast.stmt) and inside(st, use)), None)
+            if i1 is None or iu is None:
+                continue
+            # only bindings strictly before the statement of the use kill (in `t = sort(t)` the use reads d1)
+            for j in range(i1 + 1, iu):
+                if any(L[j] is d for d in defs) and L[j] is not d1:
+                    return True
+    return False
 
 
 def _stmt_of(fa, node):
